@@ -221,8 +221,12 @@ class VCSAPI:
 
     def add(self, path: str) -> None:
         """Add updates to be included in next commit."""
+        # NOTE: git would otherwise treat the path as a pathspec, where a
+        #   backslash, "*", "?", "[" and a leading ":" have a special meaning.
+        env: Env = os.environ.copy()
+        env['GIT_LITERAL_PATHSPECS'] = "1"
         try:
-            self('add_path', path=path)
+            self('add_path', env=env, path=path)
         except sp.CalledProcessError as ex:
             if "already tracked!" in str(ex):
                 # mercurial
